@@ -171,13 +171,14 @@ def gen(r, tier, i):
         'env_n': r.choice([0, 1, 7, 64, 101, 10 ** 17 + 3]),
         'env_tag': 'mother',
     }
-    overridable = ['i_set', 'i_split', 'f_split', 'bino', 'z', 'sv', 'nodiv']
+    # (d_sd holds a dictionary: the explicit value replaces the daughter's share, it is not merged into it)
+    overridable = ['i_set', 'i_split', 'f_split', 'bino', 'z', 'sv', 'nodiv', 'd_sd']
     return {
         'depth': r.choice([0, 1, 2]),
         'mother': mother,
         'explicit_processes': r.random() < 0.5,
-        'd1_init': {k: 5000 + j for j, k in enumerate(r.sample(overridable, r.randint(0, 3)))},
-        'd2_init': {k: 6000 + j for j, k in enumerate(r.sample(overridable, r.randint(0, 2)))},
+        'd1_init': {k: ({'zz': 9} if k == 'd_sd' else 5000 + j) for j, k in enumerate(r.sample(overridable, r.randint(0, 3)))},
+        'd2_init': {k: ({'zz': 8} if k == 'd_sd' else 6000 + j) for j, k in enumerate(r.sample(overridable, r.randint(0, 2)))},
         'extra_default': r.randint(1, 9),
         'gen2': r.random() < (0.35 if tier == 'quick' else 0.6),
         'sibling': r.random() < 0.5,
@@ -469,7 +470,8 @@ def relations(V, mb, d1, d2, init1, init2, spec, mother):
     chk('relation.split_float', 'q_split', d1['q_split'] == d2['q_split'] == mb['q_split'] / 2 and
         d1['q_split'].units == mb['q_split'].units)
     a, b = d1['d_sd'], d2['d_sd']
-    chk('relation.split_dict', 'd_sd', not (set(a) & set(b)) and dict(a, **b) == mb['d_sd'])
+    if free('d_sd'):
+        chk('relation.split_dict', 'd_sd', not (set(a) & set(b)) and dict(a, **b) == mb['d_sd'])
     if free('bino'):
         chk('relation.binomial', 'bino', d1['bino'] + d2['bino'] == mb['bino'] and d1['bino'] >= 0 and d2['bino'] >= 0)
     if free('z'):
